@@ -13,9 +13,17 @@ package server
 //@ ghost G_isclosed(x interface{}) bool
 
 // ---- C15: one stalled peer cannot block other peers
+//@ ghost G_snap_hs_already() bool
+//@ ghost G_snap_hs_closes() int
+//@ ghost G_snap_hs_wasclosed() bool
 //@ func AcceptConnection
 //@   property C15
 //@   requires !G_holds_accept_loop()                        :not_on_accept_loop
+// C14: a session that ends during the handshake (the peer hangs up, sends garbage, fails TLS) leaves no socket
+// behind: unless the error says the connection is closed already, the carrier is closed before returning
+//@   property C14
+//@   callsite strings.Contains#1 (c bool) assume G_snap_hs_already() == c && G_snap_hs_closes() == G_closes(conn) && G_snap_hs_wasclosed() == reportsClosedS(conn) "ghost snapshot at the test of the error text: whether it says closed already, and the carrier's close count and status at that point"
+//@   callsite return#1 () require G_snap_hs_already() || conn == nil || G_snap_hs_wasclosed() || G_closes(conn) == G_snap_hs_closes() + 1      :a_failed_handshake_closes_the_carrier
 // C04 / C05 / C03: what the endpoint handed over reaches the session handshake and the stream handler unchanged
 //@   property C04, C05, C03
 //@   callsite NewServerConnection#1 (arg1 cert.TlsConfig, arg2 bool) require arg1 == manager && arg2 == secure     :handshake_gets_the_endpoints_settings
@@ -50,16 +58,30 @@ package server
 //@   requires ch.session != nil && !G_dead(ch.session)
 //@   loop 1 holds session_accept_loop
 //@   loop 1 invariant ch.session != nil && !G_dead(ch.session)
+// the goroutine serving one logical connection: when its handler fails it closes ITS OWN stream and nothing else
+// (the session, and with it every other logical connection, stays up)
 //@ func (ch *ConnectionHandler) acceptStream$1
 //@   property C02
 //@   requires !G_holds_session_accept_loop()
-//@   modifies stream.*
-//@   trusted "goroutine serving one logical connection: runs concurrently with the accept loop and never touches the session's accept state; its call of multiplexToUpstream trivially meets the token precondition it requires itself"
+//@   freevars ch *ConnectionHandler
+//@   modifies stream.*, G_closes(stream), G_isclosed(stream), G_opens()
+//@   callsite multiplexToUpstream#1 (arg1 net.Conn) require spec_sameref(arg1, stream)                        :serves_the_stream_it_was_started_for
+//@   callsite TryClose#1 (arg0 io.Closer) require spec_sameref(arg0, stream)                                    :a_failed_handler_closes_only_its_own_stream
+//@   nocall Session).Close                                                                                      :one_logical_connection_never_ends_the_session
 
 //@ go func reportsClosedS(c io.Closer) bool { _, ok := c.(streams.Closed); return ok && G_isclosed(c) }
 //@ func (ch *ConnectionHandler) multiplexToUpstream
+// C03: the handlers of this endpoint's channels are registered on, and the stream is served by, a muxer made
+// for this logical connection alone (a muxer shared between connections would keep the handlers, i.e. the
+// allow-lists, of other endpoints)
+//@   property C03
+//@   callsite AddHandler#1 (arg0 *multistream.MultistreamMuxer) require spec_fresh(arg0)                        :handlers_registered_on_a_muxer_of_this_connection
+//@   callsite Handle#1 (arg0 *multistream.MultistreamMuxer) require spec_fresh(arg0)                            :stream_served_by_a_muxer_of_this_connection
 //@   property C02
 //@   requires !G_holds_session_accept_loop()                 :not_on_session_accept_loop
+// what serving one logical connection may touch: its own stream (and objects it creates); in particular not the
+// session or the handler's channel list
+//@   modifies multiplexChannel.*, G_closes(multiplexChannel), G_isclosed(multiplexChannel), G_opens()
 // C17: when the handler of a logical connection returns (protocol selection failed, the target closed, the
 // copy ended) the multiplexed stream has been closed, so the peer sees end-of-stream after the data
 //@   property C17
@@ -272,6 +294,8 @@ package server
 //@   callsite AcceptConnection#1 (arg2 bool) require arg2 == ws.secure     :handshake_gets_the_endpoints_secure_flag
 //@   callsite AcceptConnection#1 (arg3 Channels) require spec_sameslice(arg3, upstreams)     :handshake_gets_the_filtered_channels
 //@ func (st *IoServer) Startup$1
+//@   property C15
+//@   requires !G_holds_accept_loop()                        :the_single_stdio_peer_is_served_on_its_own_goroutine
 //@   property C05, C04, C03
 //@   freevars st *IoServer, secure bool
 //@   callsite AcceptConnection#1 (arg1 cert.TlsConfig, arg2 bool, arg3 Channels) require isServerConfig(arg1, &st.ServerConfig) && arg2 == secure && spec_sameslice(arg3, st.upstreams)     :handshake_gets_the_endpoints_own_settings
